@@ -40,3 +40,8 @@ def obligations(tier):
     obs += lex_obs("C17", "c_kw", ["seq_options", "seq_options2"], tier, "lex")
     obs += lex_obs("C17", "c_case", ["seq_options", "seq_options2"], tier, "lexcase")
     return obs
+
+
+def solver_queries(tier, scratch):
+    from vf import rx_queries as rq
+    return rq.numeral_queries(scratch, "C17")
